@@ -5,7 +5,8 @@ from hypothesis import strategies as st
 
 from vlib import gens
 from vlib.framework import Check, Outcome
-from vlib.sf import Crash, guard, mkcfg
+from vlib.sf import Crash, guard
+from vlib.tpl import cached_cfg, jinja_parses, ws_control
 from vlib.tmap import slicemap_problems
 
 LIMITS = (1, 5, 10)
@@ -87,44 +88,20 @@ class RectifyTap:
 def alternate_cause(tf, call):
     """Coarse cause label for an alternate jinja variant, from the tapped arguments: the {original source index:
     length change} of the rewritten if/elif tags and the source starts of the variant's slices *before* they are
-    mapped back (coordinates of the rewritten template, rendered order)."""
+    mapped back (coordinates of the rewritten template, rendered order).  How often does the trace visit each
+    rewritten tag?  (once per loop iteration; never inside an empty loop, a macro or a set block)"""
     if call is None:
         return "unknown"
     deltas, starts = call
-    loops = loop_ranges(tf.raw_sliced)
-    inside = [idx for idx in deltas if any(lo <= idx < hi for lo, hi in loops)]
-    if not inside:
-        return "no-loop-around-rewritten-if"
+    if not deltas:
+        return "nothing-rewritten"
     # position of each rewritten tag in the rewritten template = original index + deltas of earlier rewritten tags
-    shifted = {idx: idx + sum(d for j, d in deltas.items() if j < idx) for idx in inside}
-    never = False
-    for idx, pos in shifted.items():
-        n = starts.count(pos)
-        if n > 1:
-            return "rewritten-if-in-loop-visited-repeatedly"
-        if n == 0:
-            never = True
-    return "rewritten-if-in-loop-never-visited" if never else "rewritten-if-in-loop-visited-once"
-
-
-_ENV = []
-
-
-def jinja_parses(sql):
-    """Generator-side filter: templates plain Jinja cannot even parse are refused by the templater (no variant)."""
-    if not _ENV:
-        import jinja2
-
-        _ENV.append(jinja2.Environment(extensions=["jinja2.ext.do"]))
-    try:
-        _ENV[0].parse(sql)
-        return True
-    except Exception:
-        return False
-
-
-def ws_control(sql):
-    return bool(re.search(r"\{[{%#][-+]|[-+][}%#]\}", sql))
+    visits = [starts.count(idx + sum(d for j, d in deltas.items() if j < idx)) for idx in deltas]
+    if min(visits) == 0:
+        return "rewritten-if-never-visited"
+    if max(visits) > 1:
+        return "rewritten-if-visited-repeatedly"
+    return "rewritten-ifs-each-visited-once"
 
 
 class C07(Check):
@@ -196,8 +173,8 @@ class C07(Check):
         limit = int(case.get("variant_limit", 5))
         out = Outcome(labels=["templater:" + templater, "limit:%d" % limit])
         try:
-            cfg = mkcfg("ansi", templater, context=case.get("context"), param_style=case.get("param_style"),
-                        dotted=case.get("dotted"), render_variant_limit=limit)
+            cfg = cached_cfg(templater, context=case.get("context"), param_style=case.get("param_style"),
+                             dotted=case.get("dotted"), render_variant_limit=limit)
             linter = Linter(config=cfg)
         except Exception:
             out.excluded = "config-rejected"
